@@ -10,6 +10,7 @@ import Ufw.Lemmas.RegpVerdict
 import Ufw.Lemmas.RegpRecv
 import Ufw.Lemmas.RegpSpec
 import Ufw.Lemmas.RegpBurst
+import Ufw.Lemmas.CrcTwoBit
 
 namespace Ufw.Props.C07
 open Ufw Ufw.Model.Regp Ufw.Lemmas.Regp
@@ -199,7 +200,7 @@ open Ufw.Lemmas.CrcAlgebra (xorL Burst16) in
 theorem header_burst_rejected (raw : List Octet) (f : Frame) (hacc : classify raw = .accept f)
     (hhd : f.hdcrc = true) (E : List Octet) (hE : E.length = 12) (hE2 : E.take 2 = [0#8, 0#8]) (hb : Burst16 E) :
     classify (xorL (raw.take 12) E ++ raw.drop 12) = .badHeaderChecksum :=
-  header_burst_classified raw f hacc hhd E hE hE2 hb
+  header_burst_classified raw f hacc hhd E hE hE2 (detectable_of_burst E hb)
 
 open Ufw.Lemmas.CrcAlgebra (xorL Burst16) in
 /-- a burst inside the payload of an accepted frame with payload checksum (every frame with payload
@@ -207,7 +208,37 @@ open Ufw.Lemmas.CrcAlgebra (xorL Burst16) in
 theorem payload_burst_rejected (raw : List Octet) (f : Frame) (hacc : classify raw = .accept f)
     (hpl : f.plcrc = true) (e : List Octet) (hlen : e.length = f.payload.length) (hb : Burst16 e) :
     ∃ f', classify (raw.take (hlenOf (Ufw.Spec.Regp.unbe (raw.take 2))) ++ xorL f.payload e) = .badPayloadChecksum f' :=
-  payload_burst_classified raw f hacc hpl e hlen hb
+  payload_burst_classified raw f hacc hpl e hlen (detectable_of_burst e hb)
+
+/-! Two-bit errors.  Two damaged bits inside one octet are a burst (`Burst16.one`); `TwoBit e` covers
+two damaged bits in different octets, any number of octets apart up to a bit distance of 32766 (the
+order of x modulo the CRC polynomial is 32767; beyond it - 4 095 octets - CRC-16/ARC does miss
+two-bit errors, so the bound is part of the statement). -/
+
+open Ufw.Lemmas.CrcAlgebra (xorL) in
+open Ufw.Lemmas.CrcTwoBit (TwoBit) in
+/-- CRC-16/ARC changes under every two-bit error within 32766 bit positions, for every message -/
+theorem crc_two_bit (m e : List Octet) (hlen : m.length = e.length) (h : TwoBit e) :
+    crc16 (xorL m e) ≠ crc16 m :=
+  crc16_ne_of_detectable m e hlen (Ufw.Lemmas.CrcTwoBit.detectable_of_twoBit e h)
+
+open Ufw.Lemmas.CrcAlgebra (xorL) in
+open Ufw.Lemmas.CrcTwoBit (TwoBit) in
+/-- a two-bit error inside sequence number, address or block size of an accepted frame with header
+    checksum: never accepted, classified as bad header checksum -/
+theorem header_two_bit_rejected (raw : List Octet) (f : Frame) (hacc : classify raw = .accept f)
+    (hhd : f.hdcrc = true) (E : List Octet) (hE : E.length = 12) (hE2 : E.take 2 = [0#8, 0#8]) (hb : TwoBit E) :
+    classify (xorL (raw.take 12) E ++ raw.drop 12) = .badHeaderChecksum :=
+  header_burst_classified raw f hacc hhd E hE hE2 (Ufw.Lemmas.CrcTwoBit.detectable_of_twoBit E hb)
+
+open Ufw.Lemmas.CrcAlgebra (xorL) in
+open Ufw.Lemmas.CrcTwoBit (TwoBit) in
+/-- a two-bit error inside the payload of an accepted frame with payload checksum: never accepted,
+    classified as bad payload checksum (payloads of up to 4 095 octets: any two positions) -/
+theorem payload_two_bit_rejected (raw : List Octet) (f : Frame) (hacc : classify raw = .accept f)
+    (hpl : f.plcrc = true) (e : List Octet) (hlen : e.length = f.payload.length) (hb : TwoBit e) :
+    ∃ f', classify (raw.take (hlenOf (Ufw.Spec.Regp.unbe (raw.take 2))) ++ xorL f.payload e) = .badPayloadChecksum f' :=
+  payload_burst_classified raw f hacc hpl e hlen (Ufw.Lemmas.CrcTwoBit.detectable_of_twoBit e hb)
 
 /-- NOT every burst is caught: the header checksum sits between the words it protects and the
     payload checksum word, so a burst that touches both the last octet of the block-size field and
@@ -228,6 +259,10 @@ theorem burst_across_size_and_checksum_accepted :
 open Ufw.Lemmas.CrcAlgebra (xorL Burst16) in
 example : Burst16 ([0#8, 0#8] ++ [0x80#8, 0xff#8, 0x01#8] ++ List.replicate 7 0#8) :=
   .three 2 7 _ _ _ (by decide) (by decide)
+
+-- two damaged bits 3 and 2*8+6 = 22 positions apart in a five-octet region
+example : Ufw.Lemmas.CrcTwoBit.TwoBit ([0#8] ++ [0x08#8] ++ [0#8] ++ [0x40#8] ++ [0#8]) :=
+  .far 1 1 1 ⟨3, by omega⟩ ⟨6, by omega⟩ (by decide)
 
 example : verdictOf [0x03#8, 0x00#8, 0x00#8, 0x05#8, 0x00#8, 0x00#8, 0x01#8, 0x00#8, 0x00#8, 0x00#8, 0x00#8, 0x03#8, 0x84#8, 0x7a#8]
     (parse_frame [0x03#8, 0x00#8, 0x00#8, 0x05#8, 0x00#8, 0x00#8, 0x01#8, 0x00#8, 0x00#8, 0x00#8, 0x00#8, 0x03#8, 0x84#8, 0x7a#8]) =
